@@ -1009,3 +1009,74 @@ def resolve_ite(e, hyps, cache=None, timeout_ms=5000):
         return x.func(*[rec(a) for a in x.args])
 
     return rec(e)
+
+
+class _Timeout(Exception):
+    pass
+
+
+def with_timeout(fn, seconds):
+    """run fn() with a wall-clock limit (SIGALRM, main thread only); returns (done, value)"""
+    import signal
+    import threading
+
+    if threading.current_thread() is not threading.main_thread():
+        return True, fn()
+
+    def onalarm(signum, frame):
+        raise _Timeout()
+
+    old = signal.signal(signal.SIGALRM, onalarm)
+    signal.setitimer(signal.ITIMER_REAL, seconds)
+    try:
+        return True, fn()
+    except _Timeout:
+        return False, None
+    finally:
+        signal.setitimer(signal.ITIMER_REAL, 0)
+        signal.signal(signal.SIGALRM, old)
+
+
+def identity_decide(got, want, hyps=(), boxes=None, seed=0, points=6, timeout_s=20):
+    """is got == want as real functions of their free symbols (uninterpreted function applications count as free positive values)?
+    -> ("proved", None) by sympy normal forms; ("refuted", witness) when a high-precision evaluation at a point satisfying the
+    hypotheses differs; ("unknown", None) otherwise.  Numeric refutation comes first: a non-identity is never handed to simplify()."""
+    import random
+
+    d = sp.sympify(got) - sp.sympify(want)
+    if d == 0:
+        return "proved", None
+    apps = sorted((a for a in d.atoms(sp.core.function.AppliedUndef)), key=str)
+    rep = {a: sp.Symbol("uf%d" % i, positive=True) for i, a in enumerate(apps)}
+    # innermost first so that nested applications are replaced consistently
+    dd = d
+    for a in sorted(apps, key=lambda x: -len(str(x))):
+        dd = dd.xreplace({a: rep[a]})
+    syms = sorted(dd.free_symbols, key=str)
+    rnd = random.Random(seed + 12345)
+    boxes = boxes or {}
+    tried = 0
+    for _ in range(points * 30):
+        if tried >= points:
+            break
+        env = {}
+        for s_ in syms:
+            lo, hi = boxes.get(s_, boxes.get(str(s_), (0.2, 3.0) if (s_.is_positive or s_.is_nonnegative) else (-2.0, 3.0)))
+            env[s_] = sp.Rational(rnd.randint(int(lo * 1000) + 1, max(int(lo * 1000) + 2, int(hi * 1000) - 1)), 1000)
+        try:
+            if hyps and not all(bool(neval(h, {k: float(v) for k, v in env.items()})) for h in hyps if not (h.free_symbols - set(env))):
+                continue
+            val = sp.N(dd.xreplace(env), 40)
+            ref = sp.N(sp.sympify(want).xreplace({**{a: rep[a] for a in apps}}).xreplace(env), 40) if apps else sp.N(sp.sympify(want).xreplace(env), 40)
+        except Exception:
+            continue
+        if val.has(sp.nan, sp.zoo, sp.oo, -sp.oo) or not val.is_number or val.is_real is False:
+            continue
+        tried += 1
+        scale = max(1, abs(ref)) if (ref.is_number and ref.is_real and not ref.has(sp.nan, sp.zoo, sp.oo)) else 1
+        if abs(val) > sp.Float("1e-25") * scale:
+            return "refuted", {str(k): float(v) for k, v in env.items()} | {"difference": float(val)}
+    done, ok = with_timeout(lambda: algebra_zero(dd, budget_s=timeout_s), timeout_s + 5)
+    if done and ok:
+        return "proved", None
+    return "unknown", None
